@@ -167,6 +167,13 @@ func (server *SugarDB) handleCommand(ctx context.Context, message []byte, conn *
 		}
 	}
 
+	// Data commands execute one at a time. (Admin commands such as SAVE and REWRITEAOF are excluded:
+	// they copy the state themselves, which takes the same lock.)
+	if !strings.EqualFold(command.Module, constants.AdminModule) {
+		server.commandLock.Lock()
+		defer server.commandLock.Unlock()
+	}
+
 	// If the command is a write command, wait for state copy to finish.
 	if internal.IsWriteCommand(command, subCommand) {
 		for {
